@@ -68,7 +68,7 @@ def holds (d : Document) (o : Opts) (normal partialO : Obs) : Bool × String :=
               | .ok p =>
                 let obj := display (pathPush base p)
                 let want := (seg.allocSections ++ seg.noloadSections).map fun sec =>
-                  (⟨sec, obj, none, sec⟩ : Placement)
+                  (⟨sec, obj, none, sec, seg.wildcardSections⟩ : Placement)
                 placementsIn (startSymsOf st seg) false (segmentSlice st seg partialO.lines) ≠ want) with
           | some seg => (false, s!"segment {String.ofList seg.name}: the main script does not place exactly its partial object in every group")
           | none =>
